@@ -82,6 +82,22 @@ func genMessage(r *sim.Rand) string {
 	return strings.Join(parts, sep)
 }
 
+// attached files come from a small pool so that operations share attachments
+var filePool = []string{"file:alpha", "file:beta\n", "file:", "file:gamma gamma gamma", "file:日本語", "file:" + strings.Repeat("z", 5000)}
+
+func genFiles(r *sim.Rand) []string {
+	n := r.Range(1, 3)
+	var out []string
+	for i := 0; i < n; i++ {
+		if r.Chance(0.2) {
+			out = append(out, "file:"+genMessage(r))
+		} else {
+			out = append(out, filePool[r.Intn(len(filePool))])
+		}
+	}
+	return out
+}
+
 var labelPool = []string{"bug", "feature", "ui", "prio:high", "needs triage", "wontfix", "étiquette", "バグ", "a", "b"}
 
 func genLabels(r *sim.Rand, n int) []string {
@@ -127,7 +143,10 @@ func (e *Engine) Generate(prop, tier string, seed uint64, run int) *sim.Plan {
 	w := weights{newbug: 6, edit: 30, commit: 4, push: 14, pull: 18, fetch: 2, merge: 2}
 	switch prop {
 	case "C01", "C02", "C03", "C10":
-		// pure replication workload
+		// replication workload; identities are mutated on their home replica only
+		w.identmut = 3
+	case "C09":
+		w = weights{newbug: 3, edit: 6, push: 16, pull: 20, fetch: 2, merge: 2, identmut: 24, restart: 2}
 	case "C04":
 		w.restart = 4
 		w.edit = 40
@@ -196,8 +215,8 @@ func (e *Engine) Generate(prop, tier string, seed uint64, run int) *sim.Plan {
 		case "newbug":
 			st.S = genTitle(r)
 			st.T = genMessage(r)
-			if r.Chance(0.15) {
-				st.L = []string{"file:" + genMessage(r)}
+			if r.Chance(0.15) || (prop == "C04" && r.Chance(0.3)) {
+				st.L = genFiles(r)
 			}
 			if r.Chance(0.2) {
 				st.M = []string{"origin", word(r)}
@@ -245,6 +264,10 @@ func (e *Engine) Generate(prop, tier string, seed uint64, run int) *sim.Plan {
 		case "identmut":
 			st.K = []string{"name", "email", "login", "avatar", "meta"}[r.Intn(5)]
 			st.S = word(r) + " " + word(r)
+			st.N = r.Intn(16)
+			if prop == "C09" && r.Chance(0.12) {
+				st.K = "invalid"
+			}
 		}
 		p.Steps = append(p.Steps, st)
 	}
@@ -260,8 +283,8 @@ func genSub(r *sim.Rand, id int) sim.Step {
 	switch s.K {
 	case "comment", "editcomment", "editcomment-unknown", "editcomment-noncomment":
 		s.S = genMessage(r)
-		if r.Chance(0.12) {
-			s.L = []string{"file:" + genMessage(r), "file:" + word(r)}
+		if r.Chance(0.2) {
+			s.L = genFiles(r)
 		}
 	case "title":
 		s.S = genTitle(r)
